@@ -1,9 +1,12 @@
 package c10
 
 import (
+	"context"
 	"encoding/json"
+	"net/http"
 	"net/url"
 	"strings"
+	"sync"
 	"time"
 
 	"verif/harness/vkit"
@@ -320,14 +323,110 @@ type outcome struct {
 }
 
 // execute builds the scenario from scratch, performs its set-up fault-free, arms the fault plan and issues the request under test.
-func execute(c Case, faults []vkit.Fault) outcome {
+func execute(c Case, faults []vkit.Fault) outcome { return executeReal(c, faults, nil) }
+
+// ---- a request context that really ends inside the failing storage call ---------------------
+
+// realEnd: the request under test is served with a context of its own (as behind a timeout middleware / a client that may go
+// away); the Nth call of Method made by that request parks on entry, the harness ends the context (cancel: a stdlib
+// context.WithCancel is cancelled; deadline: the deadline of the request passes) and lets the call go on - it then fails with
+// the context's own error (ctx.Err(): context.Canceled / context.DeadlineExceeded, the value the fault plan injects there).
+// From that moment on r.Context() is genuinely done for everything the handler still does.
+type realEnd struct {
+	Method string
+	Nth    int
+	Mode   string // cancel | deadline
+}
+
+// passingDeadline is a request context with a deadline that passes when the harness says so (no wall clock decides anything:
+// a timer would make the position at which the context ends depend on the speed of the machine). Until then it is a live
+// context with a deadline ahead; afterwards Done is closed, Err is context.DeadlineExceeded and the deadline lies in the past.
+type passingDeadline struct {
+	context.Context
+	mu   sync.Mutex
+	done chan struct{}
+	err  error
+	dl   time.Time
+}
+
+func newPassingDeadline() *passingDeadline {
+	return &passingDeadline{Context: context.Background(), done: make(chan struct{}), dl: time.Now().Add(time.Hour)}
+}
+
+func (p *passingDeadline) Deadline() (time.Time, bool) {
+	p.mu.Lock()
+	defer p.mu.Unlock()
+	return p.dl, true
+}
+func (p *passingDeadline) Done() <-chan struct{} { return p.done }
+func (p *passingDeadline) Err() error {
+	p.mu.Lock()
+	defer p.mu.Unlock()
+	return p.err
+}
+
+// pass lets the deadline pass (err: what a stdlib context reports after its deadline, or context.Canceled at tear-down).
+func (p *passingDeadline) pass(err error) {
+	p.mu.Lock()
+	defer p.mu.Unlock()
+	if p.err == nil {
+		p.err, p.dl = err, time.Now()
+		close(p.done)
+	}
+}
+
+type withCtx struct {
+	h   http.Handler
+	ctx context.Context
+}
+
+func (h withCtx) ServeHTTP(w http.ResponseWriter, r *http.Request) { h.h.ServeHTTP(w, r.WithContext(h.ctx)) }
+
+// executeReal is execute with the request under test served under a context that ends inside one storage call (real != nil).
+// The request runs on a goroutine of its own that is joined before executeReal returns.
+func executeReal(c Case, faults []vkit.Fault, real *realEnd) outcome {
 	w := newWorld(c)
 	req, note := w.prepare()
 	if req == nil {
 		return outcome{setupNote: note}
 	}
 	w.st.SetFaults(faults...)
-	r := req()
+	var r *vkit.Resp
+	if real == nil {
+		r = req()
+	} else {
+		var ctx context.Context
+		var end func()
+		if real.Mode == "deadline" {
+			p := newPassingDeadline()
+			// what a stdlib context reports once its (here: 0 ns) deadline has passed
+			expired, cancel := context.WithTimeout(context.Background(), 0)
+			dlErr := expired.Err()
+			cancel()
+			ctx, end = p, func() { p.pass(dlErr) }
+			defer p.pass(context.Canceled)
+		} else {
+			cctx, cancel := context.WithCancel(context.Background())
+			ctx, end = cctx, cancel
+			defer cancel()
+		}
+		w.sut.Handler = withCtx{h: w.sut.Handler, ctx: ctx}
+		g := w.st.AddGate(real.Method, real.Nth, false) // counted from here on: the set-up is over
+		done := make(chan *vkit.Resp, 1)
+		go func() { done <- req() }()
+		for r == nil {
+			select {
+			case r = <-done: // the call was never made (the re-run took another path): reported as fault-not-fired by the caller
+			default:
+				if g.WaitParked(200 * time.Microsecond) {
+					end()
+					g.Release()
+					r = <-done
+				}
+			}
+		}
+		g.Release()
+	}
 	w.st.SetFaults()
 	return outcome{resp: r, calls: w.st.CallsOf(r.Req), st: w.st}
 }
